@@ -3,6 +3,7 @@
 model:    lean/CssVerif/Model/Media.lean (derived parsers, edit operations, serialisation)
           lean/CssVerif/Model/ProdEngine.lean (generic engine of prodparser.py on the captured grammars)
 theorems: lean/CssVerif/Props/C17.lean
+          lean/CssVerif/Lemmas/MediaSim*.lean (proof that the two agree: T17.6)
 tie:      * translator tools/gen/c17_media.py (MEDIA_TYPES, keyword sets; the two grammar trees as captured from the
             live objects) -> lean/CssVerif/Gen/C17Media.lean, C17Grammar.lean
           * correspondence: implementation vs model on histories of mediaText= / appendMedium / deleteMedium /
@@ -18,6 +19,7 @@ from lib.framework import Check, enc, time_limit
 
 from harness import c17_gen as G
 from harness import c17_oracle as O
+from harness import c17_setter as S
 from harness.c17_impl import Impl
 
 KNOWN_IDS = ('C17-missing-handback',)
@@ -33,12 +35,14 @@ class C17(Check):
                'cssutils/css/value.py', 'cssutils/util.py', 'cssutils/helper.py')
     trusted_base = (
         'hand-written model lean/CssVerif/Model/Media.lean of MediaList / MediaQuery (parse automata, parse-time '
-        'filter, appendMedium, deleteMedium, __setitem__, item, serialisation), tied to the code by the '
+        'filter, appendMedium, deleteMedium, __setitem__, item, the mediaType setter, serialisation), tied to the code by the '
         'differential correspondence of this run (implementation vs model on generated edit histories)',
-        'translator tools/gen/c17_media.py (MEDIA_TYPES and keyword sets read from the source with ast)',
-        'translator tools/gen/c17_grammar.py (production trees captured from the live MediaList / MediaQuery objects) and '
-        'the engine model lean/CssVerif/Model/ProdEngine.lean: the derived automata agree with the engine on the '
-        'captured trees on every generated token list of this run (differential, not a theorem)',
+        'translator tools/gen/c17_media.py (MEDIA_TYPES, keyword sets and the two literals of the mediaType setter read '
+        'from the source with ast)',
+        'translator tools/gen/c17_grammar.py (production trees captured from the live MediaList / MediaQuery objects; the '
+        'match lambdas are opaque and tied by a probe battery) and the transcription of ProdParser.parse into '
+        'lean/CssVerif/Model/ProdEngine.lean: that the engine on the captured trees equals the derived automata is a '
+        'theorem (T17.6, every token list of the token domain A1), no longer a differential',
         'the tokenizer (property C05) and the serialisation of single values (property C18): tokens and the text of '
         'a value token are inputs of the model',
     )
@@ -56,7 +60,10 @@ class C17(Check):
             'duplication / swap / insertion; boundary texts) followed by 0-8 edit operations drawn with bias to the '
             'media types present; each history stand-alone in log mode and raise mode, and with the start text as the '
             'media list of an @media and an @import rule, parsed with comments and with parseComments=False (the sheet tokenizer drops the comments, the token lists then hold runs of S tokens). non-trivial = distinct (start text, operations) whose '
-            'start list is well-formed or whose text has at least two tokens')
+            'start list is well-formed or whose text has at least two tokens. setter stream: (query text, media type, '
+            'error mode) with the query from the same AST generator (comments at every gap, 10 % mutated) and the type '
+            'one of the ten in varied case / with simple escapes (85 %) or an unknown string; non-trivial = the query is '
+            'well-formed')
 
     # ------------------------------------------------------------------------------------------
     def translate(self, ctx):
@@ -84,6 +91,9 @@ class C17(Check):
         if os.environ.get('C17_DEV') != 'oracle-only':     # development switch: implementation-side oracle only
             ctx.phase(self.correspond, ctx, impl, hist)
         ctx.phase(O.run_oracle, ctx, impl, hist, rng)
+        # the mediaType setter of a single query: correspondence with `MQ.setMediaType` + token-level oracle
+        ctx.phase(S.run, ctx, impl, S.gen_cases(ctx.sub_rng('c17-setter'), ctx.n(1500, 30000)),
+                  os.environ.get('C17_DEV') != 'oracle-only')
 
     def book(self, ctx, hist):
         for h in hist:
@@ -118,11 +128,13 @@ class C17(Check):
         self.book(ctx, hist)
         O.check_vocabulary(ctx, impl)
         O.run_oracle(ctx, impl, hist, rng)
+        cases = [(i['text'], i['type'], i.get('raising', False), 'search')
+                 for i in (d.get('input') or {} for d in ctx.disagreements[:50]) if 'text' in i and 'type' in i]
+        S.run(ctx, impl, cases + S.gen_cases(ctx.sub_rng('c17-setter-search'), 5000), correspond=False)
 
     # -- correspondence --------------------------------------------------------------------------
     def correspond(self, ctx, impl, hist):
         lines, expect, owners = [], [], []
-        cmp_lines, cmp_seen = [], set()
         for h in hist:
             with time_limit(20):
                 steps = impl.run_history(h)
@@ -130,20 +142,23 @@ class C17(Check):
                 lines.append(line)
                 expect.append(reply)
                 owners.append(h)
-                # the same token lists for the comparison derived parser <-> engine on the captured grammars
-                w = line.split(' ')
-                c = None
-                if w[0] == 'set':
-                    c = 'cmpl %s %s' % (w[2], w[3])
-                elif w[0] == 'append' and w[2] != '!':
-                    c = 'cmpq %s' % w[2]
-                elif w[0] == 'setitem' and w[3] != '!':
-                    c = 'cmpq %s' % w[3]
-                if c and c not in cmp_seen:
-                    cmp_seen.add(c)
-                    cmp_lines.append(c)
         if not ctx.model_ok:
             return
+        # assumption A1 = hypothesis `Dom` of the simulation theorems (Props/C17 T17.6: engine on the captured
+        # grammars = derived automata, for every token list): a token whose value is ( ) : or , has type CHAR
+        a1 = 0
+        for line, h in zip(lines, owners):
+            for w in line.split(' '):
+                if '/' not in w:
+                    continue
+                for tok in w.split(','):
+                    part = tok.split('/')
+                    if len(part) == 3 and part[1] in ('28', '29', '3A', '2C'):
+                        a1 += 1
+                        if part[0] != 'CHAR':
+                            ctx.disagree('token domain A1 (hypothesis of the simulation theorems)',
+                                         {'context': h.context, 'start': h.start, 'line': line}, part[0], 'CHAR')
+        ctx.notes['a1_checked_tokens'] = a1
         out = ctx.driver(lines)
         unsupported = 0
         for line, want, got, h in zip(lines, expect, out, owners):
@@ -160,12 +175,21 @@ class C17(Check):
                               'ops': [list(o) for o in h.ops], 'line': line},
                              want, got)
         ctx.notes['model_unsupported_steps'] = unsupported
-        # derived automata vs the generic engine on the grammars captured from the live objects
-        out = ctx.driver(cmp_lines)
-        for line, got in zip(cmp_lines, out):
-            ctx.count('engine-vs-derived:' + got.split(' ')[0])
+        # smoke test of the executable engine model (the agreement itself is a theorem now): a handful of the token
+        # lists of this run through `cmpq` / `cmpl`
+        cmp_lines = []
+        for line in lines:
+            w = line.split(' ')
+            if w[0] == 'set':
+                cmp_lines.append('cmpl %s %s' % (w[2], w[3]))
+            elif w[0] == 'append' and w[2] != '!':
+                cmp_lines.append('cmpq %s' % w[2])
+            if len(cmp_lines) >= 200:
+                break
+        for line, got in zip(cmp_lines, ctx.driver(cmp_lines)):
+            ctx.count('engine-smoke:' + got.split(' ')[0])
             if got.startswith('differ') or got == 'bad-op':
-                ctx.disagree('derived parser vs engine on the captured grammar', {'line': line},
+                ctx.disagree('derived parser vs engine on the captured grammar (contradicts T17.6)', {'line': line},
                              'derived (Model/Media.lean)', got)
 
     # ------------------------------------------------------------------------------------------
@@ -178,6 +202,10 @@ class C17(Check):
         impl = Impl()
         w = data.get('witness') or {}
         hs = []
+        cases = [(i['text'], i['type'], i.get('raising', False), 'replay')
+                 for i in [w] + [b.get('input') or {} for b in data.get('broken', [])] if 'text' in i and 'type' in i]
+        if cases:
+            S.run(ctx, impl, cases)
         if 'start' in w:
             hs.append(G.History(w.get('context', 'alone'), w['start'], [tuple(o) for o in w.get('ops', [])],
                                 raising=w.get('raising', False), kind='replay'))
@@ -186,6 +214,8 @@ class C17(Check):
             if 'start' in i:
                 hs.append(G.History(i.get('context', 'alone'), i['start'], [tuple(o) for o in i.get('ops', [])],
                                     raising=i.get('raising', False), kind='replay'))
+        if not hs and cases:
+            return
         if not hs:
             return self.run(ctx)
         self.correspond(ctx, impl, hs)
